@@ -2,6 +2,10 @@
 import json, os, sys, time
 
 VERIF = os.path.dirname(os.path.dirname(os.path.abspath(__file__)))
+# runs against a scratch copy (PV_REPO set: self-tests, seeded changes) must never overwrite the evidence of /repo itself
+SCRATCH = bool(os.environ.get('PV_REPO')) and os.environ.get('PV_REPO') != '/repo'
+EVDIR = os.path.join(VERIF, '.cache', 'scratch-evidence') if SCRATCH else os.path.join(VERIF, 'evidence')
+REPDIR = os.path.join(VERIF, '.cache', 'scratch-reports') if SCRATCH else os.path.join(VERIF, 'reports')
 
 
 class Check:
@@ -59,14 +63,14 @@ class Check:
                 known_hit.append((r, k, d, l))
             else:
                 unlisted.append((r, k, d, l))
-        os.makedirs(os.path.join(VERIF, 'reports'), exist_ok=True)
-        os.makedirs(os.path.join(VERIF, 'evidence'), exist_ok=True)
+        os.makedirs(REPDIR, exist_ok=True)
+        os.makedirs(EVDIR, exist_ok=True)
         for (r, k, d, l) in known_hit:
             print('KNOWN-FINDING: property=%s %s %s -- %s' % (self.pid, r, k, (known_keys[(r, k)].get('id', '') + ' ' + known_keys[(r, k)].get('what', d))[:160]))
         rc = 0
         for i, (r, k, d, l) in enumerate(unlisted):
             rc = 1
-            path = os.path.join(VERIF, 'reports', '%s-%d.json' % (self.pid, i))
+            path = os.path.join(REPDIR, '%s-%d.json' % (self.pid, i))
             with open(path, 'w') as fh:
                 json.dump({'property': self.pid, 'rule': r, 'rule_text': self.rules.get(r, ''), 'key': k, 'where': l, 'detail': d,
                            'tree': self.facts_info.get('tree_hash')}, fh, indent=1)
@@ -113,7 +117,7 @@ class Check:
             'wall_s': round(time.time() - self.t0, 2),
             'violations': len(unlisted),
         }
-        with open(os.path.join(VERIF, 'evidence', '%s.json' % self.pid), 'w') as fh:
+        with open(os.path.join(EVDIR, '%s.json' % self.pid), 'w') as fh:
             json.dump(ev, fh, indent=1)
         print('%s [%s]: %d obligations, %d hold, %d known findings, %d violations (%.1fs)' % (self.pid, self.tier, nob, nok, len(known_hit), len(unlisted), time.time() - self.t0))
         return rc
